@@ -239,6 +239,8 @@ type vc8Case struct {
 	nt   bool
 	// an id had all of its attributes deleted since the last restart
 	emptied bool
+	// the bulk compound operations are run at most once per case (cost)
+	bulkDone map[string]bool
 }
 
 func (c *vc8Case) logf(format string, a ...interface{}) {
@@ -398,7 +400,7 @@ func (c *vc8Case) step(i int) {
 	idx := c.idxs[rapid.IntRange(0, len(c.idxs)-1).Draw(t, "idx")]
 	op := rapid.SampledFrom([]string{
 		"createField", "set", "set", "set", "set", "clear", "clearRow", "store", "store", "import", "import",
-		"importClear", "importValue", "importValue", "importRoaring", "importRoaring", "rowAttrs", "colAttrs", "attrsEmpty", "attrsEmpty", "deleteField", "recreateField",
+		"importClear", "importValue", "importValue", "importRoaring", "importRoaring", "rowAttrs", "colAttrs", "attrsEmpty", "attrsEmpty", "bulkValueRetry", "bulkValueRetry", "bulkImportRetry", "deleteField", "recreateField",
 		"recreateIndex", "reopen", "reopen",
 	}).Draw(t, "op")
 	bitFields := c.fieldsOf(idx, func(f *vc8Field) bool { return f.Typ != "int" })
@@ -742,6 +744,135 @@ func (c *vc8Case) step(i int) {
 		vc8applyAttr(f.rowAttrs, row, k, v)
 		c.logf("%s: %s", idx.Name, q)
 		c.cls["rowAttrs"] = true
+	case "bulkValueRetry":
+		// ImportValue of a batch large enough for the fragment's bulk (snapshotting) path,
+		// the same batch again (a client retry: changes no bit), a few small writes, restart.
+		if idx.Keys || c.bulkDone["v"] {
+			return
+		}
+		var f *vc8Field
+		if len(intFields) > 0 {
+			f = intFields[rapid.IntRange(0, len(intFields)-1).Draw(t, "f")]
+		} else if len(idx.order) < 6 && idx.fields["fb"] == nil {
+			f = &vc8Field{Name: "fb", Typ: "int", Min: -10, Max: 10, bits: map[string]map[string]bool{}, tv: map[string]map[string]map[string]bool{},
+				vals: map[string]int64{}, rowAttrs: map[string]map[string]interface{}{}}
+			c.createField(idx, f)
+		} else {
+			return
+		}
+		c.bulkDone["v"] = true
+		v1, v2 := vc8genValue(t, f, "bv1"), vc8genValue(t, f, "bv2")
+		depth := func(v int64) int {
+			if v < 0 {
+				v = -v
+			}
+			d := 0
+			for ; v > 0; v >>= 1 {
+				d++
+			}
+			if d < 1 {
+				d = 1
+			}
+			return d
+		}
+		d := depth(v1)
+		if depth(v2) < d {
+			d = depth(v2)
+		}
+		n := 10000/(d+1) + 20 // n*(bitDepth+1) >= MaxOpN whatever the field's current depth (>= d)
+		shard := rapid.SampledFrom([]uint64{0, 1}).Draw(t, "bshard")
+		req := func() *pilosa.ImportValueRequest {
+			r := &pilosa.ImportValueRequest{Index: idx.Name, Field: f.Name, Shard: shard}
+			for i := 0; i < n; i++ {
+				r.ColumnIDs = append(r.ColumnIDs, shard*vc8SW+2000+uint64(i))
+				if i%2 == 0 {
+					r.Values = append(r.Values, v1)
+				} else {
+					r.Values = append(r.Values, v2)
+				}
+			}
+			return r
+		}
+		for pass := 0; pass < 2; pass++ {
+			if err := c.cmd.API.ImportValue(context.Background(), req()); err != nil {
+				c.fatalf("bulk ImportValue(%s/%s shard=%d n=%d): %v", idx.Name, f.Name, shard, n, err)
+			}
+			c.logf("ImportValue(%s/%s shard=%d cols=%d..%d vals=%d,%d alternating) [pass %d]", idx.Name, f.Name, shard, shard*vc8SW+2000, shard*vc8SW+2000+uint64(n)-1, v1, v2, pass+1)
+		}
+		for i := 0; i < n; i++ {
+			col := strconv.FormatUint(shard*vc8SW+2000+uint64(i), 10)
+			if i%2 == 0 {
+				f.vals[col] = v1
+			} else {
+				f.vals[col] = v2
+			}
+			if idx.Track {
+				idx.exist[col] = true
+			}
+		}
+		idx.touched[shard] = true
+		for k, m := 0, rapid.IntRange(1, 3).Draw(t, "nsmall"); k < m; k++ {
+			col := strconv.FormatUint(shard*vc8SW+rapid.Uint64Range(1990, 2000+uint64(n)+5).Draw(t, "scol"), 10)
+			v := vc8genValue(t, f, "sval")
+			q := fmt.Sprintf("Set(%s, %s=%d)", col, f.Name, v)
+			c.query(idx, q)
+			f.vals[col] = v
+			if idx.Track {
+				idx.exist[col] = true
+			}
+			c.logf("%s: %s", idx.Name, q)
+		}
+		c.cls["bulk-ImportValue-retry-then-small-writes"] = true
+		c.nt = true
+		c.reopen()
+	case "bulkImportRetry":
+		// the same shape on a set field: an Import of more than MaxOpN bits (the fragment
+		// snapshots), the same batch again, a few small writes, restart.
+		if idx.Keys || c.bulkDone["s"] {
+			return
+		}
+		fs := c.fieldsOf(idx, func(f *vc8Field) bool { return f.Typ == "set" && !f.Keys })
+		if len(fs) == 0 {
+			return
+		}
+		c.bulkDone["s"] = true
+		f := fs[rapid.IntRange(0, len(fs)-1).Draw(t, "f")]
+		rowS := rapid.SampledFrom(f.rowPool).Draw(t, "brow")
+		rowID, _ := strconv.ParseUint(rowS, 10, 64)
+		shard := rapid.SampledFrom([]uint64{0, 1}).Draw(t, "bshard")
+		const n = 10300
+		for pass := 0; pass < 2; pass++ {
+			r := &pilosa.ImportRequest{Index: idx.Name, Field: f.Name, Shard: shard}
+			for i := 0; i < n; i++ {
+				r.RowIDs = append(r.RowIDs, rowID)
+				r.ColumnIDs = append(r.ColumnIDs, shard*vc8SW+3000+uint64(i))
+			}
+			if err := c.cmd.API.Import(context.Background(), r); err != nil {
+				c.fatalf("bulk Import(%s/%s shard=%d n=%d): %v", idx.Name, f.Name, shard, n, err)
+			}
+			c.logf("Import(%s/%s shard=%d row=%d cols=%d..%d) [pass %d]", idx.Name, f.Name, shard, rowID, shard*vc8SW+3000, shard*vc8SW+3000+n-1, pass+1)
+		}
+		for i := 0; i < n; i++ {
+			c.applySetBit(idx, f, rowS, strconv.FormatUint(shard*vc8SW+3000+uint64(i), 10), nil)
+		}
+		for k, m := 0, rapid.IntRange(1, 3).Draw(t, "nsmall"); k < m; k++ {
+			col := strconv.FormatUint(shard*vc8SW+rapid.Uint64Range(2990, 3000+n+5).Draw(t, "scol"), 10)
+			if rapid.Bool().Draw(t, "sclear") {
+				q := fmt.Sprintf("Clear(%s, %s=%s)", col, f.Name, rowS)
+				c.query(idx, q)
+				c.applyClearBit(f, rowS, col)
+				c.logf("%s: %s", idx.Name, q)
+			} else {
+				r2 := rapid.SampledFrom(f.rowPool).Draw(t, "srow")
+				q := fmt.Sprintf("Set(%s, %s=%s)", col, f.Name, r2)
+				c.query(idx, q)
+				c.applySetBit(idx, f, r2, col, nil)
+				c.logf("%s: %s", idx.Name, q)
+			}
+		}
+		c.cls["bulk-Import-retry-then-small-writes"] = true
+		c.nt = true
+		c.reopen()
 	case "attrsEmpty":
 		// delete every attribute of one row or column with nulls, so that the id is left
 		// without attributes (set one first when the model has none to delete)
@@ -1498,7 +1629,7 @@ func TestVerifC08_Restart(t *testing.T) {
 	defer vc8CloseServer()
 	rapid.Check(t, func(t *rapid.T) {
 		cmd := vc8Server()
-		c := &vc8Case{t: t, cmd: cmd, cls: map[string]bool{}}
+		c := &vc8Case{t: t, cmd: cmd, cls: map[string]bool{}, bulkDone: map[string]bool{}}
 		seq := vc8seq
 		nidx := rapid.IntRange(1, 2).Draw(t, "nidx")
 		defer func() {
